@@ -87,6 +87,28 @@ def getCurrentCandle (short long : List Candle) (m : Nat) : Except Err (Option C
     | .error e => .error e
   else .ok long.getLast?
 
+/-- `inject_warmup_candles_to_store`, the part that builds ONE bigger timeframe of `m` minutes, after the first `j`
+    iterations of `for i in range(len(candles))`: `if (i + 1) % m == 0: add_candle(generate(candles[i-(m-1) : i+1]))` -/
+def injectLongUpTo (m : Nat) (cs : List Candle) : Nat → Except Err (List Candle)
+  | 0 => .ok []
+  | j + 1 =>
+    match injectLongUpTo m cs j with
+    | .error e => .error e
+    | .ok long =>
+      if (j + 1) % m = 0 then
+        match generate m ((cs.drop (j + 1 - m)).take m) with
+        | .ok g => .ok (addCandle long g)
+        | .error e => .error e
+      else .ok long
+
+/-- `inject_warmup_candles_to_store(candles)`: the 1m array (`batch_add_candle`) and the array of each bigger
+    timeframe in `tfs` -/
+def injectWarmup (tfs : List Nat) (cs : List Candle) : Except Err (List Candle × List (Nat × List Candle)) :=
+  if cs = [] then .error .ValueError else
+  match tfs.mapM (fun m => (injectLongUpTo m cs cs.length).map (fun l => (m, l))) with
+  | .ok longs => .ok (batchAdd [] cs, longs)
+  | .error e => .error e
+
 /-- the input check of `_isolated_backtest`: `candle_set[1][0] - candle_set[0][0] != 60_000` raises -/
 def spacingCheck (cs : List Candle) : Except Err Unit :=
   match cs with
